@@ -557,6 +557,102 @@ def j_islands(pid):
     return c
 
 
+def j_islands_rebuild(pid):
+    """System.j_islands (rebuild mode, config.ipadd false): gy is replaced by gy + (sparse matrices built from value / row / column lists);
+    afterwards gy[a_k, a_k] = gy[v_k, v_k] = diag_eps for every islanded bus k, the cross entries gy[a_k, v_k], gy[v_k, a_k] are kept or
+    zero, and every other entry is the one before the call.
+    gy is a function (row, col) -> value; gy[i, j] reads it; spmatrix(vals, rows, cols, size, 'd') with pairwise distinct (row, col)
+    pairs is the matrix D with D[rows[j], cols[j]] = vals[j] and 0 elsewhere (assumed kvxopt contract); gy += D adds entrywise."""
+    GY0 = z3.Function('gy_before', I, I, R)
+    NI = fresh('n_islanded', I)
+
+    def cur(st):
+        return st.ghost['gy']
+
+    def getitem(ex, st, args, kw, node):
+        base, sl = args
+        gy = st.load('self.dae.gy')
+        if not (isinstance(base, Opaque) and isinstance(gy, Opaque) and base.term.eq(gy.term) and isinstance(sl, ast.Tuple) and len(sl.elts) == 2):
+            return NotImplemented
+        i, k = [to_z3(ex.ev(e, st)) for e in sl.elts]
+        if i.sort() != I:
+            i = z3.ToInt(i)
+        if k.sort() != I:
+            k = z3.ToInt(k)
+        return NR(cur(st)(i, k), False)
+
+    def spm(ex, st, args, kw, node):
+        ok = len(args) == 5 and all(isinstance(a, Ref) for a in args[:3]) and args[4] == 'd'
+        ex.oblige(st, 'pre@call:spmatrix(values,rows,cols,size,"d")', z3.BoolVal(bool(ok)), {})
+        if not ok:
+            raise Unsupported('spmatrix call shape')
+        class _V:
+            def __init__(self, c):
+                self.n = c.n
+                self.vals = c.vals if isinstance(c, ArrC) else c.arr
+        vals, rows, cols = [_V(st.content(a)) for a in args[:3]]
+        ex.oblige(st, 'pre@call:spmatrix:values,rows,cols-have-equal-length', z3.And(vals.n == rows.n, rows.n == cols.n), {})
+        p, q = fresh('p', I), fresh('q', I)
+        ex.oblige(st, 'pre@call:spmatrix:(row,col)-pairs-pairwise-distinct(duplicates-would-be-summed)',
+                  z3.ForAll([p, q], z3.Implies(z3.And(p >= 0, p < q, q < rows.n), z3.Or(rows.vals[p] != rows.vals[q], cols.vals[p] != cols.vals[q]))), {})
+        D = z3.Function('spm%d' % len(st.ghost['sp']), I, I, R)
+        W = z3.Function('spm_w%d' % len(st.ghost['sp']), I, I, I)      # witness position of an entry
+        j, i, k = fresh('j', I), fresh('i', I), fresh('k', I)
+        st.pc.append(z3.ForAll([j], z3.Implies(z3.And(j >= 0, j < rows.n), D(z3.ToInt(rows.vals[j]), z3.ToInt(cols.vals[j])) == vals.vals[j])))
+        st.pc.append(z3.ForAll([i, k], z3.Or(D(i, k) == 0, z3.And(W(i, k) >= 0, W(i, k) < rows.n, z3.ToInt(rows.vals[W(i, k)]) == i,
+                                                                  z3.ToInt(cols.vals[W(i, k)]) == k))))
+        o = Opaque(fresh('spmatrix', gy_sort[0]))
+        st.ghost['sp'] = st.ghost['sp'] + [(o.term, D)]
+        return o
+
+    gy_sort = []
+
+    def binop(ex, st, args, kw, node):
+        op, a, b = args
+        gy = st.load('self.dae.gy')
+        D = [d for t, d in st.ghost['sp'] if isinstance(b, Opaque) and t.eq(b.term)]
+        ok = isinstance(op, ast.Add) and isinstance(a, Opaque) and a.term.eq(gy.term) and len(D) == 1
+        ex.oblige(st, 'pre@binop:gy+<matrix-built-by-spmatrix>', z3.BoolVal(bool(ok)), {})
+        if not ok:
+            raise Unsupported('sparse arithmetic other than gy + spmatrix(...)')
+        old = cur(st)
+        st.ghost['gy'] = lambda i, k, old=old, D=D[0]: old(i, k) + D(i, k)
+        st.ghost['nset'] = st.ghost['nset'] + 1
+        return Opaque(fresh('gy', gy_sort[0]))
+
+    def post(old, new, res):
+        a, v = old.arr('self.Bus.islanded_a'), old.arr('self.Bus.islanded_v')
+        eps = old.z('self.config.diag_eps')
+        gy = cur(new.st)
+        k, i, j = fresh('k', I), fresh('i', I), fresh('j', I)
+        ak, vk = z3.ToInt(a.vals[k]), z3.ToInt(v.vals[k])
+        inr = z3.And(k >= 0, k < NI)
+        patched = z3.ForAll([k], z3.Implies(inr, z3.And(gy(ak, ak) == eps, gy(vk, vk) == eps)))
+        # the cross entries (a_k, v_k), (v_k, a_k) of an islanded bus are kept or zeroed (the in-place mode zeroes them)
+        rest = z3.ForAll([i, j], z3.Or(gy(i, j) == GY0(i, j), z3.And(i == j, z3.Exists([k], z3.And(inr, z3.Or(ak == i, vk == i)))),
+                                       z3.And(gy(i, j) == 0, z3.Exists([k], z3.And(inr, z3.Or(z3.And(ak == i, vk == j), z3.And(vk == i, ak == j)))))))
+        untouched = z3.BoolVal(new.st.ghost['nset'] == 0)
+        return z3.If(old.z('self.Bus.n_islanded_buses') == 0, untouched, z3.And(patched, rest))
+
+    def pre(v):
+        gy_sort[:] = [v.st.load('self.dae.gy').term.sort()]
+        a, vv = v.arr('self.Bus.islanded_a'), v.arr('self.Bus.islanded_v')
+        p, q = fresh('p', I), fresh('q', I)
+        return z3.And(a.n == NI, vv.n == NI, NI >= 0, v.z('self.Bus.n_islanded_buses') == NI,
+                      z3.ForAll([p, q], z3.Implies(z3.And(p >= 0, p < NI, q >= 0, q < NI), z3.And(
+                          a.vals[p] != vv.vals[q], z3.Implies(p != q, z3.And(a.vals[p] != a.vals[q], vv.vals[p] != vv.vals[q]))))))
+    c = Contract(FS, 'System.j_islands', pid=pid, params={'self': TObj()},
+                 schema={'self.Bus.n_islanded_buses': TInt(), 'self.Bus.islanded_a': TArr(kind='int'), 'self.Bus.islanded_v': TArr(kind='int'),
+                         'self.config.ipadd': TConst(False), 'self.config.diag_eps': TReal(), 'self.dae.gy': TOpaque('SparseMatrix')},
+                 requires=[('islanded-address-lists-paired-and-distinct', pre)],
+                 ghost_init={'gy': lambda v: (lambda i, k: GY0(i, k)), 'nset': 0, 'sp': []},
+                 calls={'__getitem__': getitem, 'spmatrix': spm, '__binop__': binop}, globals_={'spmatrix': Func('spmatrix')},
+                 ensures=[('rebuild-mode:diag=eps-for-every-islanded-bus,cross-kept-or-zero,every-other-entry-kept;untouched-without-islanded-buses', post)], modifies=['self.dae.gy'])
+    c.merge = False
+    c.tag = 'rebuild'
+    return c
+
+
 def replay_j_islands(obligation, model, meta):
     """native run of the real System.j_islands on a stub system with a dense gy pattern and 0..3 islanded buses"""
     from types import SimpleNamespace
@@ -564,33 +660,43 @@ def replay_j_islands(obligation, model, meta):
     from kvxopt import spmatrix
     from andes.system import System
     eps = 1e-6
-    for nisl in (0, 1, 2, 3):
-        nb = 4
-        m = 2 * nb + 1
-        ii, jj = np.meshgrid(np.arange(m), np.arange(m), indexing='ij')
-        vals = (1.0 + ii.ravel() * 0.1 + jj.ravel() * 0.01).tolist()
-        gy = spmatrix(vals, ii.ravel().tolist(), jj.ravel().tolist(), (m, m), 'd')
-        before = np.array([[gy[int(i), int(j)] for j in range(m)] for i in range(m)])
-        buses = list(range(nisl))
-        a = np.array(buses, dtype=int)
-        v = np.array([nb + b for b in buses], dtype=int)
-        from contracts.packutil import Stub
-        stub = Stub(_cls=System, Bus=SimpleNamespace(n_islanded_buses=nisl, islanded_a=a, islanded_v=v),
-                    config=SimpleNamespace(ipadd=1, diag_eps=eps), dae=SimpleNamespace(gy=gy))
-        System.j_islands(stub)
-        after = np.array([[stub.dae.gy[int(i), int(j)] for j in range(m)] for i in range(m)])
-        bad = None
-        if nisl == 0 and not np.array_equal(before, after):
-            bad = 'gy changed without islanded buses'
-        for k in range(nisl):
-            want = {(a[k], a[k]): eps, (v[k], v[k]): eps, (a[k], v[k]): 0.0, (v[k], a[k]): 0.0}
-            for (i, j), w in want.items():
-                if after[i, j] != w:
-                    bad = 'gy[%d,%d] = %r, expected %r' % (i, j, after[i, j], w)
-        if bad:
-            return {'confirmed': True, 'inputs': {'islanded_a': a.tolist(), 'islanded_v': v.tolist(), 'diag_eps': eps, 'gy': 'dense %dx%d' % (m, m)},
-                    'observed': bad, 'native_cmd': 'System.j_islands(stub) with a dense kvxopt gy'}
-    return {'confirmed': False, 'tried': 4}
+    from contracts.packutil import Stub
+    for ipadd in (1, 0):
+        for nisl in (0, 1, 2, 3):
+            nb = 4
+            m = 2 * nb + 1
+            ii, jj = np.meshgrid(np.arange(m), np.arange(m), indexing='ij')
+            vals = (1.0 + ii.ravel() * 0.1 + jj.ravel() * 0.01).tolist()
+            gy = spmatrix(vals, ii.ravel().tolist(), jj.ravel().tolist(), (m, m), 'd')
+            before = np.array([[gy[int(i), int(j)] for j in range(m)] for i in range(m)])
+            buses = list(range(nisl))
+            a = np.array(buses, dtype=int)
+            v = np.array([nb + b for b in buses], dtype=int)
+            stub = Stub(_cls=System, Bus=SimpleNamespace(n_islanded_buses=nisl, islanded_a=a, islanded_v=v),
+                        config=SimpleNamespace(ipadd=ipadd, diag_eps=eps), dae=SimpleNamespace(gy=gy))
+            System.j_islands(stub)
+            after = np.array([[stub.dae.gy[int(i), int(j)] for j in range(m)] for i in range(m)])
+            bad = None
+            if nisl == 0 and not np.array_equal(before, after):
+                bad = 'gy changed without islanded buses'
+            want = before.copy()
+            for k in range(nisl):
+                want[a[k], a[k]] = want[v[k], v[k]] = eps
+                if ipadd:
+                    want[a[k], v[k]] = want[v[k], a[k]] = 0.0
+                else:           # rebuild mode: cross entries kept or zeroed
+                    for (i, j) in ((a[k], v[k]), (v[k], a[k])):
+                        if after[i, j] == 0.0:
+                            want[i, j] = 0.0
+            d = np.abs(after - want)
+            if bad is None and np.max(d) > 1e-12:
+                i, j = np.unravel_index(int(np.argmax(d)), d.shape)
+                bad = 'gy[%d,%d] = %r, expected %r' % (i, j, after[i, j], want[i, j])
+            if bad:
+                return {'confirmed': True, 'inputs': {'config.ipadd': ipadd, 'islanded_a': a.tolist(), 'islanded_v': v.tolist(), 'diag_eps': eps,
+                                                      'gy': 'dense %dx%d' % (m, m)},
+                        'observed': bad, 'native_cmd': 'System.j_islands(stub) with a dense kvxopt gy'}
+    return {'confirmed': False, 'tried': 8}
 
 
 def replay_system_j_update(obligation, model, meta):
@@ -666,11 +772,10 @@ def replay_model_j_update(obligation, model, meta):
 
 
 def add_obligations(pack, ss, tier, pid='C03'):
-    pack.assume('System.j_islands is put under contract for the default in-place mode (config.ipadd=1) only')
     pack.trust('kvxopt.spmatrix(V, I, J, size) builds the matrix with V[k] accumulated at (I[k], J[k]); ipadd/ipset add/set in place',
                'hand-written j_numeric of a model or block appends to constant Jacobian names only (so position #idx of '
                'triplets.vjac[<variable name>] is the idx-th generated entry); no stock model defines j_numeric')
-    items = [(model_j_update(pid), None, replay_model_j_update)] + [(c,) for c in jac_eq_var_name(pid)] + [(system_store_sparse_pattern(pid),), (model_store_sparse_pattern(pid),), (system_j_update(pid), None, replay_system_j_update), (j_islands(pid), None, replay_j_islands)] + [(c,) for c in dae_restore_sparse(pid) + dae_build_pattern(pid)]
+    items = [(model_j_update(pid), None, replay_model_j_update)] + [(c,) for c in jac_eq_var_name(pid)] + [(system_store_sparse_pattern(pid),), (model_store_sparse_pattern(pid),), (system_j_update(pid), None, replay_system_j_update), (j_islands(pid), None, replay_j_islands), (j_islands_rebuild(pid), None, replay_j_islands)] + [(c,) for c in dae_restore_sparse(pid) + dae_build_pattern(pid)]
     from contracts import fn_sequence as Q
     items += [(c,) for c in Q.jactriplet(pid)]
     run_contracts(pack, items)
